@@ -1,6 +1,7 @@
 #!/usr/bin/env python3
 """C14 - stop_token: Lean models Stop (concurrency) and StopRef (reference-count histories),
-theorems Props/C14.lean, tied by E1 (controlled schedules) and by a sequential differential run."""
+theorems Props/C14.lean, tied by E1 (controlled schedules) and by a sequential differential run;
+plus a live-runtime monitor tier (checks/C14live.py: pika tasks sharing / changing OS threads)."""
 import os, sys
 sys.path.insert(0, os.path.join(os.path.dirname(os.path.abspath(__file__)), '..', 'tools'))
 import e1check
@@ -59,15 +60,27 @@ def stats(c, r):
             'pika_task_cases': 1 if ' mode=pika ' in c else 0}
 
 
+def extra_checks(ctx):
+    """second correspondence (reference counts) + live-runtime tier, folded into one result for e1check"""
+    import C14ref, C14live
+    out = {'violations': [], 'evaluations': 0, 'validated': 0, 'disagreements': 0, 'explanation': ''}
+    for part in (C14ref.run(ctx), C14live.run(ctx)):
+        out['violations'] += part.get('violations', [])
+        for k in ('evaluations', 'validated', 'disagreements'):
+            out[k] += part.get(k, 0)
+        out['explanation'] += ('; ' if out['explanation'] else '') + part.get('explanation', '')
+    return out
+
+
 if __name__ == '__main__':
     sys.path.insert(0, os.path.dirname(os.path.abspath(__file__)))
-    import C14ref
     e1check.run(dict(
         prop='C14', model='stop', harness='e1/stop.cpp', bin='e1_stop', gen=gen, nontrivial=nontrivial, stats=stats,
         quick=3000, thorough=120000, extra=8000,
-        extra_check=C14ref.run,
-        rule='(a) random programs (2-4 logical threads on plain OS threads or pika tasks, 2-6 operations each over request_stop / stop_callback construction / destruction / stop_requested+stop_possible query / stop_source copy+destroy, 2-6 callbacks whose bodies deregister themselves or others, register further callbacks or call request_stop) on one stop state under PRNG schedules (uniform / priority / sticky); non-trivial = request_stop dequeued a registered callback or a CAS on the state word failed; distinct = distinct (program, schedule seed) text. (b) random sequential histories of stop_source / stop_token special members, compared line by line with the Lean model',
+        extra_check=extra_checks,
+        rule='(a) random programs (2-4 logical threads on plain OS threads or pika tasks, 2-6 operations each over request_stop / stop_callback construction / destruction / stop_requested+stop_possible query / stop_source copy+destroy, 2-6 callbacks whose bodies deregister themselves or others, register further callbacks or call request_stop) on one stop state under PRNG schedules (uniform / priority / sticky); non-trivial = request_stop dequeued a registered callback or a CAS on the state word failed; distinct = distinct (program, schedule seed) text. (b) random sequential histories of stop_source / stop_token special members, compared line by line with the Lean model. (c) live runtime: harness/e2/stop_live.cpp, scenario A (request_stop on a pika task whose callback suspends it while another pika task on the same worker OS thread destroys the stop_callback) and scenario B (the task is stolen by another worker inside the callback and destroys its own stop_callback), PRNG-chosen numbers of callbacks, yields and destroyer tasks; observable monitors only',
         corr_name='E1 log of harness/e1/stop.cpp accepted by Lean model Stop; E0 outputs of harness/e0/stopref.cpp equal to Lean model StopRef',
         assumptions=['token reference count (bits 0-30) is modelled in the sequential half only; the concurrency model keeps lock bit, stop-requested bit and source count of the word',
-                     'callback bodies are harness scripts (deregister self/other, register, request_stop, query); callbacks that block are outside the model'],
+                     'callback bodies are harness scripts (deregister self/other, register, request_stop, query); callbacks that block are outside the model',
+                     'live tier: monitors only (no event-log acceptor); its hang verdict uses the hook note stop.self of remove_callback; runs that cannot provoke a steal or exceed the wall-clock budget give no verdict'],
     ))
